@@ -115,6 +115,9 @@ func (c *stepCtx) stepRepeat(st map[string]interface{}) string {
 	bad := 0
 	var m0, m1 runtime.MemStats
 	for i := 0; i < times; i++ {
+		if i%500 == 0 {
+			stepStart.Store(time.Now().UnixNano()) // progress (the watchdog limit applies to a stretch of calls, not to the series)
+		}
 		dest := reflect.New(d.rt)
 		buf := append([]byte(nil), in...)
 		runtime.ReadMemStats(&m0)
